@@ -151,7 +151,7 @@ pub fn run(_params: &[i64], ops: &Rows, mon: &mut Mon) -> Rows {
                     if seen.iter().any(|n| *n < before) { mon.fail(format!("op{} an instance was destroyed after its object had already released the context (count {} at that moment, {} before the drop)", k, seen.iter().min().unwrap(), before)); }
                     res = Some(None); } } }
             11 => { match take(&mut pool, h) { H::Grp(g) => { match cast!(g impl Clone) { Some(c) => res = Some(Some(H::GrpC(c))), None => res = Some(None) } } other => { if h >= 0 && (h as usize) < pool.len() { pool[h as usize] = other; } } } }
-            12 => { match take(&mut pool, h) { H::GrpC(g) => res = Some(Some(H::Grp(g.upcast()))), other => { if h >= 0 && (h as usize) < pool.len() { pool[h as usize] = other; } } } }
+            12 => { match take(&mut pool, h) { H::GrpC(g) => res = Some(Some(H::Grp(if op.get(2) == Some(&1) { From::from(g) /* the cast back spelled with `From` */ } else { g.upcast() }))), other => { if h >= 0 && (h as usize) < pool.len() { pool[h as usize] = other; } } } }
             21 => {
                 // the consuming entry called DIRECTLY through the vtable, as a C caller does: no caller-side guard exists, so the object's own context
                 // reference is what must keep the context alive until the instance is destroyed (reported with op code 5: the model's consuming call)
